@@ -479,6 +479,7 @@ func (p *Process) onProcessEnd(state string) {
 	p.mtxStopFn.Unlock()
 	p.stopProbes()
 	p.readyCancelFn()
+	p.readyLogCancelFn(fmt.Errorf("process %s ended", p.getName()))
 	p.setState(state)
 	p.updateProcState()
 
